@@ -38,6 +38,8 @@ Next == /\ ~done
                      Emit([op |-> "serde.state", kind |-> "prop", nbig |-> nb, k |-> 17, doublings |-> 0])
                 /\ \A kd \in {"arith", "arith32", "geo", "harm", "paired", "unpaired"} : \A dbl \in {0, 5, 30, 31, 34} :
                      Emit([op |-> "serde.state", kind |-> kd, doublings |-> dbl])
+                \* an interval returned by a public call for a reference over negative values (not ordered on the pinned tree)
+                /\ Emit([op |-> "serde.interval", ty |-> "f64", n |-> 3, via |-> "relative_to", a |-> [k |-> "two", lo |-> 0, hi |-> 1]])
                 /\ \A k \in IKinds, ty \in ElemTypes, lo \in 0..2, hi \in 0..2 : lo <= hi =>
                      Emit([op |-> "serde.interval", ty |-> ty, n |-> 3,
                            a |-> CASE k = "two" -> [k |-> k, lo |-> lo, hi |-> hi]
